@@ -52,11 +52,12 @@ def run(tier, seed, only=None):
            D.commit, D.rollback, D.release, D.drop, dp.Pool.connect, dp.Pool.release, dp.Pool.drop, dp.Pool.disconnect,
            ps.SQLitePool._connect, ps.SQLitePool.drop, ps.SQLitePool.disconnect, ppg.PGPool.release, ppg.PGPool._connect,
            ppg.PGProvider.set_transaction_mode, pmy.MySQLProvider.set_transaction_mode, pmy.MySQLProvider.release)
-    T = 150 if tier == 'quick' else 1800
+    T = 150 if tier == 'quick' else 1200
     if tier == 'thorough':          # read by checks/h_c19.py in the worker processes
         os.environ['C19_K3MAX'] = os.environ.get('C19_NMAX', '80')
         os.environ['C19_ARMED2'] = '1'
-        os.environ['C19_FULL'] = '1'
+        # C19_FULL=1 (fault pairs for exception classes 1 and 2 as well) is left to manual runs: with the second armed
+        # session it is ~12000-17000 paths and 7-12 minutes per harness (measured: file_opt confirmed in 690 s)
     from checks import h_c19
     specs = [dict(module='checks.h_c19', fn=f, cond_timeout=T, path_timeout=T / 2, setup='setup') for f in h_c19.HARNESSES]
     if only: specs = [s for s in specs if only in s['fn']]
@@ -67,7 +68,7 @@ def run(tier, seed, only=None):
         'session shapes': list(h_c19.SHAPES), 'body raises': [False, True],
         'mid-session action': ['none', 'commit()', 'rollback()', 'flush()', 'db.commit()', 'db.rollback()', 'raw db.execute()', 'nested db_session'],
         'exception class': ['driver OperationalError (reconnectable for pg/mysql)', 'driver IntegrityError', 'non-DB-API exception'] +
-                           (['quick tier: classes 1, 2 with a single fault position only'] if tier == 'quick' else []),
+                           ['classes 1, 2 with a single fault position only (C19_FULL=1 lifts this)'],
         'pools': ['SQLitePool(file)', "SQLitePool(':memory:')", 'PGPool', 'Pool under MySQLProvider'],
         'threads': 'one faulted thread; the follow-up session is run both in the same and in a fresh thread (no schedules)',
     }
